@@ -401,6 +401,10 @@ func (p *PacketIn) UnmarshalBinary(data []byte) error {
 	copy(p.pad, data[n:])
 	n += 2
 
+	if len(data[n:]) == 0 {
+		// a packet-in may carry no packet data (max_len 0 in the output action)
+		return nil
+	}
 	err = p.Data.UnmarshalBinary(data[n:])
 	return err
 }
